@@ -457,7 +457,7 @@ WALKER_MUTANTS = [
     dict(id="c01-dispatch-tpm2b-prefix", props=["C01"], rule="W1",
          edits=[(MARSHAL, 'elif tpm_type.__name__.startswith("TPM2B"):', 'elif tpm_type.__name__.startswith("TPM2B_"):'),
                 (STRUCT, "class TPM2B_DIGEST:", "class TPM2BDIGEST:"), (STRUCT, "TPM2B_DIGEST", "TPM2BDIGEST", 0)], skip_if_missing=True),
-    dict(id="c01-invert-sessions", props=["C01", "C11"], rule={"C01": "F", "C11": "A1"}, names="process_response",
+    dict(id="c01-invert-sessions", props=["C01"], rule="F", names="process_response",
          edits=[(MARSHAL, """            field.name in ("parameterSize", "authorizationArea")
             and values["tag"] != TPM_ST.SESSIONS""", """            field.name in ("parameterSize", "authorizationArea")
             and values["tag"] == TPM_ST.SESSIONS""")]),
@@ -642,5 +642,56 @@ FRONTEND_MUTANTS = [
          edits=[(HEX, '    high_nibble = b""\n    low_nibble = b""\n\n    while True:', '    high_nibble = bytes()\n    low_nibble = bytes()\n\n    while True:')]),
 ]
 MUTANTS += FRONTEND_MUTANTS
+
+CLI_MUTANTS = [
+    dict(id="c19-choice-without-handler", props=["C19"], rule="L1", names="choices",
+         edits=[(MAIN, '    "choices": ["binary", "events", "pretty"],', '    "choices": ["binary", "events", "pretty", "json"],')]),
+    dict(id="c19-refusal-returns-zero", props=["C19"], rule="L2", names="refusal",
+         edits=[(MAIN, '        tpm_type = fuzzy_match(args.type, {t.__name__: t for t in all_types}, "type")\n        if tpm_type is None:\n            return -1', '        tpm_type = fuzzy_match(args.type, {t.__name__: t for t in all_types}, "type")\n        if tpm_type is None:\n            return 0')]),
+    dict(id="c19-strict-convert", props=["C19"], rule="L3", names="abort_on_error",
+         edits=[(MAIN, "        command_code=command_code,\n        abort_on_error=False,\n    )\n\n    for line in format_out.unmarshal(events):", "        command_code=command_code,\n        abort_on_error=True,\n    )\n\n    for line in format_out.unmarshal(events):")]),
+    dict(id="c19-print-loop-break", props=["C19"], rule="L3", names="print loop",
+         edits=[(MAIN, "        else:\n            print(line)\n\n    return 0", "        else:\n            print(line)\n            if \"Warning\" in line:\n                break\n\n    return 0")]),
+    dict(id="c19-except-dropped", props=["C19"], rule="L4", names="except",
+         edits=[(MAIN, "                InputStreamSuperfluousBytesError,\n                ConstraintViolatedError,\n            ) as error:", "                InputStreamSuperfluousBytesError,\n            ) as error:")]),
+    dict(id="c19-except-too-broad", props=["C19"], rule="L4", names="breadth",
+         edits=[(MAIN, "                InputStreamSuperfluousBytesError,\n                ConstraintViolatedError,\n            ) as error:", "                InputStreamSuperfluousBytesError,\n                ConstraintViolatedError,\n                Exception,\n            ) as error:")]),
+    dict(id="c19-drops-command-code", props=["C19"], rule="L3", names="command_code",
+         edits=[(MAIN, "        buffer=bytes_from_files(args.file),\n        command_code=command_code,\n        abort_on_error=False,", "        buffer=bytes_from_files(args.file),\n        abort_on_error=False,")]),
+    dict(id="c19-example-filter", props=["C19"], rule="L5", names="command filter",
+         edits=[(MAIN, '                    hasattr(obj, "_command_code") and obj._command_code == command_code', '                    hasattr(obj, "_command_code") and obj._command_code != command_code')]),
+    dict(id="c19-in-maps-wrong", props=["C19"], rule="L1", names="format_in[hex]",
+         edits=[(MAIN, '        "binary": Binary,\n        "hex": Hex,\n        "pcapng": Pcapng,\n        "swtpm-log": SWTPMLog,\n    }[args.format_in]\n\n    format_out', '        "binary": Binary,\n        "hex": Binary,\n        "pcapng": Pcapng,\n        "swtpm-log": SWTPMLog,\n    }[args.format_in]\n\n    format_out')]),
+    dict(id="c19-main-ignores-status", props=["C19"], rule="L2", names="main",
+         edits=[(MAIN, "    ret = args.func(args)\n    sys.exit(ret)", "    ret = args.func(args)\n    sys.exit(0)")]),
+    dict(id="c19-benign-message", props=["C19"], benign=True,
+         edits=[(MAIN, 'f"Error: --type=Response requires --command=<command>."', 'f"Error: --type=Response needs --command=<command>."')]),
+]
+MUTANTS += CLI_MUTANTS
+
+OBJECT_MUTANTS = [
+    dict(id="c11-skipset-shrunk", props=["C11"], rule="A1", names="invisible",
+         edits=[(OBJECT, '                "authorizationArea",\n                "parameterSize",\n                "parameters",', '                "authorizationArea",\n                "parameters",')]),
+    dict(id="c11-skipset-grown", props=["C11"], rule="A1", names="invisible",
+         edits=[(OBJECT, '                "handles",\n                "authSize",', '                "handles",\n                "commandCode",\n                "authSize",')]),
+    dict(id="c11-union-prefix", props=["C11"], rule="A2",
+         edits=[(OBJECT, 'type(obj).__name__.startswith("TPMU")', 'type(obj).__name__.startswith("TPMU_S")')]),
+    dict(id="c11-marker-type", props=["C11"], rule="A3", names="event shapes",
+         edits=[(OBJECT, "            # otherwise: yield \"empty field\"\n            yield MarshalEvent(path / PathNode(field.name), field.type, ...)", "            # otherwise: yield \"empty field\"\n            yield MarshalEvent(path / PathNode(field.name), type(obj), ...)")]),
+    dict(id="c11-absent-regress", props=["C11"], rule="A5", names="None vs tpm_type()",
+         edits=[(OBJECT, """        if not value and fields(tpm_type):
+            # empty-field marker: the part is absent (union member without payload, empty TPM2B structure)
+            return None
+""", "")]),
+    dict(id="c11-drop-command-code", props=["C11"], rule="A4", names="_command_code",
+         edits=[(OBJECT, '    if tpm_type is Response:\n        object.__setattr__(obj, "_command_code", command_code)\n', '')]),
+    dict(id="c11-elem-index", props=["C11"], rule="A3", names="element path",
+         edits=[(OBJECT, "parent_path / PathNode(name=elem_name, index=i)", "parent_path / PathNode(name=elem_name, index=i + 1)")]),
+    dict(id="c11-new-nullable-clash", props=["C11"], rule="A1", names="TPMT_KDF_SCHEME",
+         edits=[(ALGO, 'class TPMT_KDF_SCHEME:\n    _selectors = {\n        "details": "scheme",\n    }\n\n    scheme: TPMI_ALG_KDF  # TODO is optional\n    details: TPMU_KDF_SCHEME', 'class TPMT_KDF_SCHEME:\n    _selectors = {\n        "parameters": "scheme",\n    }\n\n    scheme: TPMI_ALG_KDF  # TODO is optional\n    parameters: TPMU_KDF_SCHEME')]),
+    dict(id="c11-benign-comment", props=["C11"], benign=True,
+         edits=[(OBJECT, "    # yield struct parent\n", "    # yield the struct's own event first\n")]),
+]
+MUTANTS += OBJECT_MUTANTS
 
 MUTANTS = [m for m in MUTANTS if not m.get("skip_if_missing")]
